@@ -74,6 +74,19 @@ def st_schedule(allow_const0=False):
     return st.one_of(base, base, pre)
 
 
+def sched_has_one(spec):
+    k = spec[0]
+    if k == "const":
+        return spec[1] == 1
+    if k == "per":
+        return 1 in spec[1]
+    if k == "rle":
+        return any(b == 1 for b, _ in spec[1])
+    if k in ("iid", "fin"):
+        return True
+    return sched_has_one(spec[3])
+
+
 def sched_has_zero(spec):
     k = spec[0]
     if k == "const":
